@@ -6,6 +6,7 @@ package zz_verif
 import (
 	"encoding/json"
 	"fmt"
+	"io/fs"
 	"os"
 	"runtime"
 	"strconv"
@@ -257,4 +258,27 @@ func StdinFrom(path string, firstPortion int) (restore func(), err error) {
 	}()
 	os.Stdin = r
 	return func() { os.Stdin = old; r.Close() }, nil
+}
+
+// FileInfoModel is what the engine's model of (*os.File).Stat returns: a plain fs.FileInfo.
+type FileInfoModel struct {
+	FName string
+	FSize int64
+	FMode fs.FileMode
+}
+
+func (f FileInfoModel) Name() string       { return f.FName }
+func (f FileInfoModel) Size() int64        { return f.FSize }
+func (f FileInfoModel) Mode() fs.FileMode  { return f.FMode }
+func (f FileInfoModel) ModTime() time.Time { return time.Time{} }
+func (f FileInfoModel) IsDir() bool        { return f.FMode.IsDir() }
+func (f FileInfoModel) Sys() any           { return nil }
+
+// newFileInfo is called by the engine's Stat model.
+func newFileInfo(name string, size int64, charDevice bool) fs.FileInfo {
+	m := fs.FileMode(0o644)
+	if charDevice {
+		m = fs.ModeDevice | fs.ModeCharDevice | 0o666
+	}
+	return FileInfoModel{FName: name, FSize: size, FMode: m}
 }
